@@ -398,6 +398,8 @@ pub enum Action {
     DropVarHandle(usize),
     Stabilise,
     Write(usize),
+    /// like Write, for warm starts: not subject to the `writable` list
+    WriteAny(usize),
     WriteSame(usize),
     WriteSnd(usize),
     WriteBoth(usize),
@@ -1770,7 +1772,7 @@ impl World {
         op_log(format!("{a:?}"));
         match a {
             Action::Stabilise => self.stabilise(),
-            Action::Write(i) => {
+            Action::Write(i) | Action::WriteAny(i) => {
                 let nv = fresh();
                 let e = self.vars.get_mut(i).unwrap();
                 e.0.set(nv.clone());
@@ -2573,11 +2575,18 @@ fn make_rhs(sh: &Rc<Shared>, ws: &WeakState, bind: usize, branch: bool, gen: u32
 pub fn run_world(cfg: &WorldCfg) {
     let mut w = ManuallyDrop::new(World::new(cfg));
     let r = catch(|| {
+        let mut skipped = false;
         for a in &cfg.warm {
             // (a warm action that is not enabled on this path, e.g. no closure-built node exists, is skipped)
-            if w.enabled().contains(a) {
+            if matches!(a, Action::WriteAny(_)) || w.enabled().contains(a) {
                 w.apply(a);
+            } else {
+                cover("warm-action-skipped");
+                skipped = true;
             }
+        }
+        if !cfg.warm.is_empty() && !skipped {
+            cover("warm-start-complete");
         }
         for _ in 0..cfg.len {
             if w.poisoned {
